@@ -448,7 +448,7 @@ func GenNoCallbackCase(r *core.Rand, pr Profile) []string {
 		ops = append(ops, genX(r, pr, false, true))
 	}
 	core.Count("nocallback:generated")
-	return append(ops, "cmitm tls=1 rq=pass rs=pass hf="+HandshakeFailKinds[r.Intn(len(HandshakeFailKinds))])
+	return append(ops, "cmitm tls=1 rq=pass rs=pass hf="+HandshakeFailKinds[r.Intn(len(HandshakeFailKinds))], "end")
 }
 
 // genFailedConnect: a MITM CONNECT whose tunnel starts with a TLS handshake that fails (hsfail.go).
@@ -503,9 +503,6 @@ func GenCase(r *core.Rand, pr Profile) []string {
 	}
 	if (pr.Rich || pr.Tunnels) && r.Chance(1, 60) {
 		return GenHalfCloseCase(r, pr)
-	}
-	if pr.Tunnels && r.Chance(1, 40) {
-		return GenNoCallbackCase(r, pr)
 	}
 	if pr.Tunnels && !pr.Faults && r.Chance(1, 400) {
 		return GenBusyCase(r, r.Pick("mitm", "shapedmitm", "tls", "plain"))
